@@ -264,9 +264,173 @@ theorem failure_is_retried (cfg : Cfg) (s : Retry.State) (g : Retry.Good s) (k :
   simp only [Retry.step, Retry.stepO, hrun, hh, if_true]
   exact (Retry.isFailed_markFailed _ _ _ _).mpr (Or.inl ⟨rfl, (Retry.hasKey_iff _ _).mp hh⟩)
 
-/-- **C33 (6)** Retrying can always end: whatever happened before (scripts consumed arbitrarily),
-once the remote index reports the tag, or answers 404 / origin / PUT with 200 while the first origin
-confirms every dependency, the execution succeeds. -/
+/-- the two shapes of a successful execution's trace -/
+def OkTrace (deps : List Digest) (tr : List Ev) : Prop :=
+  tr = [⟨.has, .ok⟩] ∨ ∃ pre, tr = pre ++ [⟨.put, .ok⟩] ∧ Confirmed deps pre
+
+/-- **C33 (4′)** the same for the task as it is *stored*: the dependencies the executor works on are the
+payload column of the row (what GetPending / GetFailed return, C30 `payload_stable`: never rewritten
+while the task is stored), not a free parameter. -/
+theorem stored_task_removed_only_when_replicated (cfg : Cfg) (s : Retry.State) (k : Retry.Key) (sc : Scripts)
+    (hk : Retry.stored s k) (hl : ¬ Retry.stored (execStored cfg s k sc).1 k) :
+    ∃ deps res, Retry.payloadOf s.rows k = some deps ∧ (execStored cfg s k sc).2 = some (deps, res) ∧
+      res = exec cfg ⟨deps⟩ sc ∧ OkTrace deps res.trace := by
+  unfold execStored at hl ⊢
+  cases hp : Retry.payloadOf s.rows k with
+  | none => simp only [hp] at hl; exact absurd hk hl
+  | some pl =>
+    cases hq : Retry.placeOf s.own k with
+    | none => simp only [hp, hq] at hl; exact absurd hk hl
+    | some plc =>
+      cases plc with
+      | running p =>
+        simp only [hp, hq] at hl ⊢
+        refine ⟨pl, _, rfl, rfl, rfl, ?_⟩
+        rcases Retry.step_keys_lost s _ k hk hl with ⟨he, _⟩ | ⟨inv, he, _⟩
+        · have : (exec cfg ⟨pl⟩ sc).ok = true := by injection he
+          exact (exec_ok_iff cfg ⟨pl⟩ sc).mp this
+        · cases he
+      | adding => simp only [hp, hq] at hl; exact absurd hk hl
+      | retrying => simp only [hp, hq] at hl; exact absurd hk hl
+      | queued p => simp only [hp, hq] at hl; exact absurd hk hl
+
+/-- **C33 (4″) history form.**  After every history of the composition (any steps of the retry manager —
+adds with any dependency lists, poll passes, crashes, restarts — interleaved with executions against
+arbitrary worlds): every execution that reported success has the has-200 or the
+put-after-all-dependencies-confirmed trace for the dependencies stored with the task … -/
+theorem every_success_replicated (cfg : Cfg) (rcfg : Retry.Config) (ops : List COp) :
+    ∀ e ∈ (crun cfg rcfg ops).log, e.res.ok = true → OkTrace e.deps e.res.trace := by
+  unfold crun
+  suffices h : ∀ (s : CState), (∀ e ∈ s.log, e.res.ok = true → OkTrace e.deps e.res.trace) →
+      ∀ e ∈ (ops.foldl (cstep cfg) s).log, e.res.ok = true → OkTrace e.deps e.res.trace from
+    h _ (by simp)
+  induction ops with
+  | nil => intro s hs; exact hs
+  | cons o rest ih =>
+    intro s hs
+    apply ih
+    cases o with
+    | sys o' => cases o' <;> exact hs
+    | run k sc =>
+      simp only [cstep, execStored]
+      cases hp : Retry.payloadOf s.r.rows k with
+      | none => exact hs
+      | some pl =>
+        cases hq : Retry.placeOf s.r.own k with
+        | none => exact hs
+        | some plc =>
+          cases plc with
+          | running p =>
+            simp only
+            intro e he hok
+            rcases List.mem_append.mp he with he | he
+            · exact hs e he hok
+            · simp at he; subst he
+              exact (exec_ok_iff cfg ⟨pl⟩ sc).mp hok
+          | adding => exact hs
+          | retrying => exact hs
+          | queued p => exact hs
+
+/-- … and a task leaves the table only in a step that is such an execution of that task (or the
+start-up purge of a destination that is no longer configured). -/
+theorem removal_is_logged (cfg : Cfg) (s : CState) (o : COp) (k : Retry.Key)
+    (hk : Retry.stored s.r k) (hl : ¬ Retry.stored (cstep cfg s o).r k) :
+    (∃ sc deps res, o = .run k sc ∧ (cstep cfg s o).log = s.log ++ [⟨k, deps, res⟩] ∧ res.ok = true ∧
+      Retry.payloadOf s.r.rows k = some deps) ∨
+    (∃ inv, o = .sys (.start inv) ∧ k ∈ inv) := by
+  cases o with
+  | sys o' =>
+    have hstep : ∀ o'', (∀ x b, o'' ≠ Retry.Op.finish x b) → (cstep cfg s (.sys o'')).r = Retry.step s.r o'' := by
+      intro o'' h; cases o'' <;> first | rfl | exact absurd rfl (h _ _)
+    cases o' with
+    | finish x b => exact absurd hk hl
+    | start inv =>
+      right
+      rw [hstep _ (by intro x b h; cases h)] at hl
+      rcases Retry.step_keys_lost s.r _ k hk hl with ⟨he, _⟩ | ⟨inv', he, hin, _⟩
+      · cases he
+      · injection he with he; subst he; exact ⟨inv, rfl, hin⟩
+    | _ =>
+      exfalso
+      rw [hstep _ (by intro x b h; cases h)] at hl
+      rcases Retry.step_keys_lost s.r _ k hk hl with ⟨he, _⟩ | ⟨inv', he, _⟩ <;> cases he
+  | run x sc =>
+    left
+    simp only [cstep, execStored] at hl ⊢
+    cases hp : Retry.payloadOf s.r.rows x with
+    | none => simp only [hp] at hl; exact absurd hk hl
+    | some pl =>
+      cases hq : Retry.placeOf s.r.own x with
+      | none => simp only [hp, hq] at hl; exact absurd hk hl
+      | some plc =>
+        cases plc with
+        | running p =>
+          simp only [hp, hq] at hl ⊢
+          rcases Retry.step_keys_lost s.r _ k hk hl with ⟨he, _⟩ | ⟨inv, he, _⟩
+          · injection he with hkx hok
+            subst hkx
+            exact ⟨sc, pl, _, rfl, rfl, hok.symm ▸ rfl, hp⟩
+          · cases he
+        | adding => simp only [hp, hq] at hl; exact absurd hk hl
+        | retrying => simp only [hp, hq] at hl; exact absurd hk hl
+        | queued p => simp only [hp, hq] at hl; exact absurd hk hl
+
+/-! ### a cooperative world lets the replication succeed -/
+
+/-- the first origin confirms each dependency at its next request -/
+def coopDeps (o0 : Replica) : List Digest → Scripts → Option Scripts
+  | [], sc => some sc
+  | d :: ds, sc => if (pop sc (.rep d o0)).1 = .ok then coopDeps o0 ds (pop sc (.rep d o0)).2 else none
+
+theorem replicateAll_coop (cfg : Cfg) (o0 : Replica) (os : List Replica) (hr : cfg.replicas = o0 :: os)
+    (ds : List Digest) (sc sc' : Scripts) (tr : List Ev) (h : coopDeps o0 ds sc = some sc') :
+    ∃ ext, replicateAll cfg ds sc tr = (true, sc', tr ++ ext) ∧ Confirmed ds ext := by
+  induction ds generalizing sc tr with
+  | nil =>
+    simp only [coopDeps, Option.some.injEq] at h
+    subst h
+    exact ⟨[], by simp [replicateAll], fun _ hd => by cases hd⟩
+  | cons d ds ih =>
+    simp only [coopDeps] at h
+    split at h
+    · rename_i hok
+      obtain ⟨ext, he, hc⟩ := ih (pop sc (.rep d o0)).2 (tr ++ [⟨.rep d o0, .ok⟩]) h
+      have hpoll : poll cfg.bo d cfg.replicas sc tr = (true, (pop sc (.rep d o0)).2, tr ++ [⟨.rep d o0, .ok⟩]) := by
+        rw [hr]
+        simp only [poll]
+        have : pollOne d o0 cfg.bo sc tr = (.success, (pop sc (.rep d o0)).2, tr ++ [⟨.rep d o0, .ok⟩]) := by
+          cases hb : cfg.bo <;> simp [pollOne, hok]
+        rw [this]
+      refine ⟨⟨.rep d o0, .ok⟩ :: ext, ?_, ?_⟩
+      · simp only [replicateAll, hpoll, he]; simp
+      · intro d' hd'
+        rcases List.mem_cons.mp hd' with rfl | hd'
+        · exact ⟨o0, by simp⟩
+        · obtain ⟨o, ho⟩ := hc d' hd'
+          exact ⟨o, List.mem_cons_of_mem _ ho⟩
+    · cases h
+
+/-- **C33 (6) "retried until the remote holds the tag" can end:** whatever happened before (scripts
+consumed arbitrarily by earlier failed executions), as soon as the world cooperates — the remote
+index answers that it does not have the tag, names its origin, the first origin confirms every
+dependency and the index accepts the PUT — the execution succeeds with the tag PUT after all blobs. -/
+theorem can_replicate (cfg : Cfg) (o0 : Replica) (os : List Replica) (hr : cfg.replicas = o0 :: os)
+    (t : Task) (sc sc3 : Scripts)
+    (hh : (pop sc .has).1 ≠ .ok) (ho : (pop (pop sc .has).2 .origin).1 = .ok)
+    (hd : coopDeps o0 t.deps (pop (pop sc .has).2 .origin).2 = some sc3) (hp : (pop sc3 .put).1 = .ok) :
+    (exec cfg t sc).ok = true ∧ ∃ pre, (exec cfg t sc).trace = pre ++ [⟨.put, .ok⟩] ∧ Confirmed t.deps pre := by
+  obtain ⟨ext, he, hc⟩ := replicateAll_coop cfg o0 os hr t.deps _ sc3
+    ([⟨.has, (pop sc .has).1⟩] ++ [⟨.origin, (pop (pop sc .has).2 .origin).1⟩]) hd
+  rw [ho] at he
+  simp only [exec, hh, if_false, ho, ne_eq, not_true_eq_false, he, hp]
+  refine ⟨by simp, _, rfl, ?_⟩
+  intro d hd'
+  obtain ⟨o, hm⟩ := hc d hd'
+  exact ⟨o, List.mem_append_right _ hm⟩
+
+/-- **C33 (6′)** Retrying can always end: whatever happened before (scripts consumed arbitrarily),
+once the remote index reports the tag the execution succeeds (HEAD 200 short-cut; the cooperative
+case without the short-cut is `can_replicate`). -/
 theorem exec_succeeds_when_remote_has (cfg : Cfg) (t : Task) (sc : Scripts)
     (h : (pop sc .has).1 = .ok) : (exec cfg t sc).ok = true := by
   simp [exec, h]
@@ -284,5 +448,14 @@ example : (exec { cfg2 with bo := 1 } ⟨[7]⟩ world1).trace.map (·.ep) = [.ha
 example : (exec { cfg2 with bo := 1 } ⟨[7]⟩ world1).ok = false := by decide
 example : (exec cfg2 ⟨[9]⟩ ((.rep 9 0, [.client]) :: world1)).trace.map (·.ep) = [.has, .origin, .rep 9 0] := by decide
 example : Confirmed [7, 8] (exec cfg2 ⟨[7, 8]⟩ world1).trace := by decide
+-- the composition: a task added with dependencies [7, 8] fails once (origin lookup fails), is marked failed,
+-- survives a restart, is retried from the table with the same dependencies and removed after the PUT
+def rcfg : Retry.Config := { capIn := 2, capRe := 2, nIn := 1, nRe := 1, retryInterval := 0 }
+def chist : List COp :=
+  [.sys (.addBegin 5 0 [7, 8]), .sys (.addEnq 5), .sys (.take .inc), .run 5 [(.has, [.client]), (.origin, [.server])],
+   .sys .crash, .sys (.start []), .sys (.advance 1), .sys .pollFetch, .sys .pollMark, .sys .pollEnq, .sys (.take .ret),
+   .run 5 world1]
+example : (crun cfg2 rcfg chist).log.map (fun e => (e.key, e.deps, e.res.ok)) = [(5, [7, 8], false), (5, [7, 8], true)] := by decide
+example : ¬ Retry.stored (crun cfg2 rcfg chist).r 5 ∧ Retry.stored (crun cfg2 rcfg (chist.take 11)).r 5 := by decide
 
 end KrakenModel.Spec.C33
